@@ -25,7 +25,7 @@ def make_worker(tier):
     from fcp.parser import get_fcp_from_string, get_fcp
     from fcp.error import Logger
 
-    variants = VARIANTS if tier != "quick" else ("canonical", "compact", "commented", "nopipes", "pipes", "trailing", "noas")
+    variants = VARIANTS if tier != "quick" else ("canonical", "compact", "commented", "nopipes", "pipes", "trailing", "noas", "noparens", "bare")
 
     def parse(text):
         try:
@@ -56,7 +56,7 @@ def make_worker(tier):
                 if err is not None:
                     kind = err.split(":")[0].replace(" ", "-")
                     S.add("outcomes", kind)
-                    S.violation("C07.parse", "C07.parse/%s/%s" % (kind, label), inp, expected="Ok(tree)", actual=err)
+                    S.violation("C07.parse", "C07.parse/%s/%s" % (kind, label if variant != "bare" else "spelling-without-parentheses-and-pipes:" + label), inp, expected="Ok(tree)", actual=err)
                     continue
                 diffs = reftree.project_diff(exp, tree)
                 if diffs:
@@ -66,8 +66,17 @@ def make_worker(tier):
                     S.add("outcomes", ("ok", label))
             base = results.get("canonical")
             if base and base[1] is not None:
+                # line terminators are white space too: the canonical text with CRLF and with lone CR, parsed from a string
+                for lt, rep in (("crlf", "\r\n"), ("cr", "\r")):
+                    S.count("executions")
+                    S.count("transitions")
+                    t2 = base[0].replace("\n", rep)
+                    tree, err = parse(t2)
+                    results[lt] = (t2, tree if err is None else err, err)
+            if base and base[1] is not None:
                 for variant, (text, tree, err) in results.items():
                     if tree is not None and tree != base[1]:
+                        S.add("outcomes", "variant-differs")
                         S.violation("C07.variants", "C07.variants/result-depends-on-formatting/%s/%s" % (variant, label), {"text": text, "canonical_text": base[0], "variant": variant}, expected=base[1], actual=tree)
             # file entry point on a slice
             if idx % 7 == 0 and base and base[1] is not None:
@@ -148,7 +157,7 @@ def run(tier):
         print("HARNESS ERROR: expected-tree builder disagrees with golden files:", bad)
         return 2
     ds, transitions = descs.descriptions(tier)
-    r.bounds = {"descriptions": len(ds), "variants": 7 if tier == "quick" else len(VARIANTS), "golden_files_reproduced": n}
+    r.bounds = {"descriptions": len(ds), "variants": (9 if tier == "quick" else len(VARIANTS)) + 2, "golden_files_reproduced": n}
     work = make_worker(tier)
     for s in pmap(work, chunks(list(enumerate(ds)), 8)):
         r.stats.merge(s)
